@@ -39,7 +39,7 @@ DirFailures(ev) ==
   \cup (IF ev.gen_exit # 0 THEN {}
         ELSE (IF WellFormedBundle(ev.file, ev.ver) THEN {} ELSE {"gen-bundle output is not a well-formed bundle"})
         \cup (IF x.res # "err" /\ FoundDir(x.exs) = ExpectedDir(ev.basepath, ev.files) /\ Len(x.exs) = Cardinality(ExpectedDir(ev.basepath, ev.files))
-                 /\ \A i \in 1..Len(x.exs) : IsPrefixB(Origin0 \o <<47>>, x.exs[i].url) /\ ~HasQueryOrFragment(x.exs[i].url)
+                 /\ \A i \in 1..Len(x.exs) : IsPrefixB(ev.origin \o <<47>>, x.exs[i].url) /\ ~HasQueryOrFragment(x.exs[i].url)
                                               /\ (x.exs[i].status = 200 \/ x.exs[i].status \in {301, 302, 307, 308})
               THEN {} ELSE {"bundle does not hold exactly one exchange per file at base URL + percent-encoded relative path"})
         \cup (IF ev.dump_exit = 0 THEN {} ELSE {"dump-bundle rejects gen-bundle's output"})
